@@ -306,6 +306,7 @@ func runC05(r *Run) {
 	flushAfterValidation(r)
 	handlerRunsOnBranch(r)
 	flushSurvivesRevert(r)
+	uncommittedRunsOnBranch(r)
 
 	// ---------- R5 ----------
 	r.Rule("R5", "PATH.flush-skip: StateDB.Commit runs in the middle of a transaction (before every precompile dispatch), so 'nothing to write' for a dirty slot is judged against what an earlier flush of this transaction wrote (transientStorage) whenever such a value exists, and against the originally loaded value only when it does not: the comparison with originStorage is reachable only over the not-found edge of the transientStorage lookup, and each SetState is followed by recording the value in transientStorage — otherwise a slot flushed inside a frame that later reverts keeps the reverted value in the store")
@@ -701,6 +702,48 @@ func flushSurvivesRevert(r *Run) {
 	})
 	r.Check(iterates, "R10", fnID(cm)+"#flush-survives-revert", P.Pos(fnPos(cm)), "Commit re-visits the addresses earlier Commits wrote",
 		fmt.Sprintf("%d precompile Run method(s) flush the StateDB mid-transaction, but Commit iterates the journal's dirty set only and remembers nothing of what it wrote: a frame that writes state, calls any precompile (a query suffices) and reverts leaves its writes in the store — demonstrated: sstore + payment in a reverted frame persist and the supply grows by the payment", mid))
+}
+
+// uncommittedRunsOnBranch (C05 R11): an execution that is not to be committed leaves nothing.
+func uncommittedRunsOnBranch(r *Run) {
+	P := r.P
+	r.Rule("R11", "PATH.uncommitted-execution-runs-on-a-branch: ApplyMessageWithConfig(commit=false) — the gas estimation that the erc20 keeper runs inside consensus (about 25 trial executions per CallEVM, out-of-gas ones included), BalanceOf and the other read calls — must leave nothing: skipping the final StateDB.Commit is not enough, because stateful precompiles flush the StateDB and write straight into the context. The context the StateDB and the EVM are built on derives from CacheContext() on the commit == false edge")
+	am, ok := P.FnOK("(*x/evm/keeper.Keeper).ApplyMessageWithConfig")
+	if !ok {
+		r.Bad("R11", "anchor/ApplyMessageWithConfig", "", "not found")
+		return
+	}
+	var commitP *ssa.Parameter
+	for _, p := range am.Params {
+		if p.Name() == "commit" {
+			commitP = p
+		}
+	}
+	okBranch := false
+	eachCall(am, func(ci CallInfo) {
+		if ci.Name != "New" || !pathHasSuffix(ci.PkgPath, "x/evm/statedb") {
+			return
+		}
+		ctxArg := ci.Instr.Common().Args[0]
+		sl := backSlice(ctxArg)
+		if !sl.HasCall(func(g CallInfo) bool { return g.Name == "CacheContext" }) {
+			return
+		}
+		// the branch is taken on a test of the commit parameter
+		for _, b := range am.Blocks {
+			if ifi, isIf := lastIf(b); isIf && commitP != nil && backSlice(ifi.Cond).Has(commitP) {
+				for _, sc := range b.Succs {
+					for _, in := range sc.Instrs {
+						if c, isC := in.(*ssa.Call); isC && callInfo(c).Name == "CacheContext" {
+							okBranch = true
+						}
+					}
+				}
+			}
+		}
+	})
+	r.Check(okBranch, "R11", fnID(am)+"#uncommitted-runs-on-a-branch", P.Pos(fnPos(am)), "commit == false ⇒ the StateDB is built on a CacheContext() branch",
+		"an execution with commit=false runs on the caller's own context: a token contract that calls a stateful precompile (e.g. staking.delegate in its transfer()) has that effect applied once per trial execution of the internal gas estimation — one MsgConvertERC20 delegated 25000 instead of 1000 in the demonstration")
 }
 
 // oogIsFailure (C05 R6).
